@@ -77,6 +77,24 @@ type WorldOpts struct {
 	T0         time.Time
 	// CommitDelay: deliver the consensus engine's real timing of validator-set changes (see World.delay)
 	CommitDelay bool
+	// FirstByte: account index -> first byte of its address (a key is searched for it): addresses that begin like a store
+	// prefix of some module
+	FirstByte map[int]byte
+}
+
+// detKeyWithFirstByte: a deterministic key whose account address begins with b
+func detKeyWithFirstByte(i int, b byte) cryptotypes.PrivKey {
+	for c := 0; c < 1<<20; c++ {
+		seed := make([]byte, 32)
+		seed[0], seed[1] = byte(i+1), byte((i+1)>>8)
+		seed[2], seed[3], seed[4] = byte(c), byte(c>>8), byte(c>>16)
+		seed[30], seed[31] = 9, 7
+		p := &secp256k1.PrivKey{Key: seed}
+		if p.PubKey().Address()[0] == b {
+			return p
+		}
+	}
+	panic("no key found")
 }
 
 func detKey(i int) cryptotypes.PrivKey {
@@ -114,6 +132,9 @@ func NewWorld(o WorldOpts) *World {
 	total := sdk.NewCoins()
 	for i := 0; i < o.NAcc; i++ {
 		p := detKey(i)
+		if b, ok := o.FirstByte[i]; ok {
+			p = detKeyWithFirstByte(i, b)
+		}
 		a := sdk.AccAddress(p.PubKey().Address())
 		w.privs = append(w.privs, p)
 		w.addrs = append(w.addrs, a)
